@@ -12,7 +12,7 @@ import json
 from vlib import common, corpus, cxx, rt, values
 from vlib.common import pmap, rng, Inconclusive
 from vlib.model import *  # noqa
-from vlib.refcodec import CodecError
+from vlib.refcodec import CodecError, f64
 
 LEVEL = "exploration"
 FLOOR = {"quick": 300, "thorough": 3000}
@@ -147,6 +147,8 @@ def matrix_package(quick: bool):
         ("date", P("date")), ("enum", N("MxEnum")), ("flags", N("MxFlags")), ("vec", V(P("int32"))),
         ("cplx", P("complexfloat32")), ("rec", N("MxRec")), ("smap", M(P("string"), P("int32"))),
         ("imap", M(P("int32"), P("string"))), ("dyn", A(P("int32"), None)), ("fixed", A(P("int32"), ((None, 2),))),
+        # maps whose key type is a named alias: of string (a JSON object, like a literal string key) and of an integer (an array of pairs)
+        ("lmap", M(N("MxLabel"), P("int32"))), ("cmap", M(N("MxCount"), P("int32"))),
     ]
     if not quick:
         kinds += [("time", P("time")), ("datetime", P("datetime")), ("uint64", P("uint64")), ("rec2", N("MxRec2")),
@@ -156,6 +158,8 @@ def matrix_package(quick: bool):
     for i in range(len(kinds)):
         for j in range(i + 1, len(kinds)):
             (na, ta), (nb, tb) = kinds[i], kinds[j]
+            if {na, nb} == {"smap", "lmap"}:
+                continue   # the same type twice (MxLabel is string): yardl rejects the union, rightly
             nullable = (idx % 3 == 0)
             u = U(((na + "Case", ta), (nb + "Case", tb)), nullable, True)
             steps.append(("u%s%s" % (na.capitalize(), nb.capitalize()), u))
@@ -175,7 +179,9 @@ def matrix_package(quick: bool):
     AllOpt = Rec("MxAllOpt", [("label", Opt(P("string"))), ("weight", Opt(P("int32"))), ("u", U(((None, P("int32")), (None, P("string"))), True))])
     protos.append(Proto("MxAllOptional", [("plain", N("MxAllOpt")), ("maybe", Opt(N("MxAllOpt"))), ("items", S(N("MxAllOpt"))), ("vec", V(N("MxAllOpt"))),
                                           ("inUnion", U(((None, N("MxAllOpt")), (None, P("string"))))), ("m", M(P("string"), N("MxAllOpt")))]))
-    return Pkg("Matrix", [Rc, Rc2, E1, F1, Gen, AllOpt] + protos)
+    # arrays without a declared rank: rank 0 (one element, shape []) is a legal value
+    protos.append(Proto("MxDynamic", [("d", A(P("int32"), None)), ("ds", S(A(P("float64"), None))), ("dv", V(A(P("int32"), None))), ("du", U((("arr", A(P("int32"), None)), ("text", P("string"))), False, True))]))
+    return Pkg("Matrix", [Rc, Rc2, E1, F1, Gen, AllOpt, Al("MxLabel", P("string")), Al("MxCount", P("uint16"))] + protos)
 
 
 def run_matrix(ctx, quick):
@@ -196,6 +202,9 @@ def run_matrix(ctx, quick):
                 if isinstance(t, U) and not isinstance(t, S):
                     ci = k % len(t.cases)
                     vals[i] = (ci, vg.gen(c.fq(t.cases[ci][1]), 1))
+            if proto.name == "MxDynamic" and k < 2:
+                vals = [((), [42]), [((), [f64(1.5)]), ((2,), [f64(1.0), f64(2.0)]), ((), [f64(-0.5)])], [((), [7]), ((0,), [])], (0, ((), [-9]))] if k == 0 else \
+                       [((1, 1, 1), [5]), [], [((), [0])], (0, ((1,), [3]))]
             if proto.name == "MxAllOptional":
                 empty = [None, None, None]
                 full = [(0, "x"), (0, k), (1, "s")]
